@@ -192,12 +192,22 @@ fn rcap(r: &mut Rng, usual: usize) -> usize {
     if r.chance(1, 8) { r.pick(&[256usize, 256, 256, 512, 768, 1024]) - 3 + r.below(20) as usize } else { usual }
 }
 
+/// one time in five: the buffer the previous operation of this case left behind (an earlier packet, often a
+/// longer one), as it is, when it is large enough
+fn reused(r: &mut Rng, need: usize) -> Option<Vec<u8>> {
+    if !r.chance(1, 5) { return None; }
+    let b = crate::exec::last_buf();
+    if b.len() >= need && !b.is_empty() { Some(b) } else { None }
+}
+
 fn rbuf(r: &mut Rng, kind: u64) -> Vec<u8> {
+    if let Some(b) = reused(r, 64) { return b; }
     let cap = rcap(r, 64);
     poison(r, cap, kind)
 }
 
 fn pbuf(r: &mut Rng, base: usize, spread: u64) -> Vec<u8> {
+    if let Some(b) = reused(r, base) { return b; }
     let usual = base + r.below(spread + 1) as usize;
     let cap = rcap(r, usual);
     let k = r.below(3);
@@ -206,6 +216,7 @@ fn pbuf(r: &mut Rng, base: usize, spread: u64) -> Vec<u8> {
 
 fn buf_for(r: &mut Rng, c: &Call) -> Vec<u8> {
     let n = expected_len(c).unwrap_or(12);
+    if let Some(b) = reused(r, n) { return b; }
     let cap = n + match r.below(3) { 0 => 0, 1 => 1, _ => 1 + r.below(40) as usize };
     let k = r.below(3);
     poison(r, cap, k)
@@ -1073,6 +1084,22 @@ fn c11(g: &mut Gen) {
             s.op(Op::Process(p, b));
         });
     }
+    // one response buffer reused for a whole exchange: every answer is written over the previous one (which is
+    // often longer), so what lies beyond the reported length is an earlier packet's tail and must stay
+    let n = g.n(200, 8000);
+    for _ in 0..n {
+        let cfg = gen_cfg(&mut g.rng);
+        g.case("reuse", &cfg, |s, r| {
+            let mut b = pbuf(r, 64, 64);
+            for _ in 0..(2 + r.below(5)) {
+                let p = if r.chance(5, 6) { let cmd = r.pick(&[3u8, 5, 6, 2, 1, 4, 3]); answerable_request(s.nvend, cmd, r.below(128) as u8, r.below(32) as u8, r) } else { any_packet(s, r) };
+                match s.op(Op::Process(p, b.clone())) {
+                    Obs::ProcOk(_, _, _, _, out) | Obs::ProcErr(_, _, out) | Obs::Panic(out) => { if out.len() == b.len() { b = out; } }
+                    _ => {}
+                }
+            }
+        });
+    }
     // valid packets inside a longer receive buffer (stray bytes after the PEC), and truncated ones
     let n = g.n(300, 12_000);
     for _ in 0..n {
@@ -1530,6 +1557,30 @@ fn c02(g: &mut Gen) {
                     for j in 0..8 { if pat & (0x80 >> j) != 0 { let bit = start + j; if bit / 8 < q.len() { q[bit / 8] ^= 0x80 >> (bit % 8); } } }
                     if q != p { s.op(Op::Decode(q)); }
                 }
+            }
+        });
+    }
+    // one, two and three flipped bits anywhere in valid packets; two flips exactly 127 (or 254) bits apart are the
+    // ones an 8-bit PEC cannot see (proofs/TwoBit.v) — such a packet may be accepted, and then its PEC is right
+    let reps = g.n(40, 1500);
+    for _ in 0..reps {
+        let cfg = gen_cfg(&mut g.rng);
+        g.case("bits", &cfg, |s, r| {
+            s.alt_on = false;
+            let p = match r.below(3) { 0 => request(r.below(128) as u8, 0, 1, &[r.below(2) as u8, 1 + r.below(254) as u8], r), 1 => encoder_packet(s, r).unwrap_or_else(|| gen_packet(r, true)), _ => { let mut q = gen_packet(r, true); if q.len() < 20 { q = build_packet(0x23, 0x34, 1, 0x23, 0x34, 0xC8, 0x7E, &r.bytes(24)); } q } };
+            let nb = p.len() * 8;
+            for _ in 0..12 {
+                let mut q = p.clone();
+                let i = r.below(nb as u64) as usize;
+                let mut flips = vec![i];
+                match r.below(4) {
+                    0 => {}
+                    1 => { flips.push(r.below(nb as u64) as usize); }
+                    2 => { let d = r.pick(&[127usize, 254, 126, 128]); if i + d < nb { flips.push(i + d); } else if i >= d { flips.push(i - d); } }
+                    _ => { flips.push(r.below(nb as u64) as usize); flips.push(r.below(nb as u64) as usize); }
+                }
+                for f in flips { q[f / 8] ^= 0x80 >> (f % 8); }
+                if q != p { s.op(Op::Decode(q.clone())); if r.chance(1, 3) { let b = pbuf(r, 64, 0); s.op(Op::Process(q, b)); } }
             }
         });
     }
